@@ -2,6 +2,7 @@ import Model.Emit
 import Model.EmitQuote
 import Model.EmitFuse
 import Model.EmitCtx
+import Model.EmitType
 import Generated.C16CompileNodes
 import Drivers.Common
 /-! `vm_c16`: line protocol over `Model.Emit`, instantiated with the regenerated tables
@@ -184,6 +185,7 @@ def handle (line : String) : String :=
         "ok " ++ bytesToHex t ++ " " ++ (match Model.EmitQuote.readInt t with | some j => toString j | none => "none")
       | none => "bad-request"
   | ["float", c] => floatCase c
+  | ["split", h] => withHex h fun bs => b01 (Model.EmitType.splits (bs.map fun b => Char.ofNat b))
   | ["ctx", ty] => ctxStr ty
   | ["resolve", defs, ns, q] => resolveCase defs ns q
   | ["path", ty] => pathStr ty
